@@ -8,4 +8,9 @@ require (
 	pgregory.net/rapid v1.3.0
 )
 
+require (
+	golang.org/x/mod v0.21.0 // indirect
+	golang.org/x/tools v0.26.0 // indirect
+)
+
 replace github.com/rogpeppe/go-internal => /repo
